@@ -174,6 +174,9 @@ pub struct FakeJunos {
     /// payload (`<configuration>` text) and outcome of every load of the current/last session
     pub loads: Vec<(String, Elem, Result<LoadOutcome, String>)>,
     pub commits: usize,
+    /// the state a `<confirmed/>` commit falls back to unless a plain commit confirms it before
+    /// the session ends (the confirm time-out is modelled as "at the end of the session")
+    unconfirmed: Option<Config>,
     /// problems noticed while parsing requests (C10 observations, protocol misuse)
     pub protocol_errors: Vec<String>,
     pub faults: Vec<Fault>,
@@ -560,6 +563,20 @@ impl FakeJunos {
             }
             "commit-configuration" => match self.pending.clone() {
                 Some(db) => {
+                    // the router honours the options of the request: <check/> validates only,
+                    // <at-time> schedules (nothing is activated now), <confirmed/> activates
+                    // provisionally
+                    let has = |n: &str| op.child(n).is_some();
+                    if has("check") || has("at-time") {
+                        return (reply_wrap(id, "<ok/>"), true);
+                    }
+                    if has("confirmed") {
+                        if self.unconfirmed.is_none() {
+                            self.unconfirmed = Some(self.ephemeral.clone());
+                        }
+                    } else {
+                        self.unconfirmed = None;
+                    }
                     self.ephemeral = db;
                     self.commits += 1;
                     (reply_wrap(id, "<ok/>"), true)
@@ -576,6 +593,9 @@ impl FakeJunos {
             }
             "close-session" => {
                 self.pending = None;
+                if let Some(before) = self.unconfirmed.take() {
+                    self.ephemeral = before;
+                }
                 (reply_wrap(id, "<ok/>"), true)
             }
             other => {
@@ -590,6 +610,9 @@ impl FakeJunos {
     pub fn new_session(&mut self) -> usize {
         self.sessions += 1;
         self.pending = None;
+        if let Some(before) = self.unconfirmed.take() {
+            self.ephemeral = before;
+        }
         self.withheld.clear();
         self.loads_in_session = 0;
         self.sessions
